@@ -81,6 +81,8 @@ def call_builtin(I, name, args, kwargs, fr):
             return (VList if name == 'list' else VTuple)(list(v.items))
         if isinstance(v, VDict):
             return VList([VInt(k) if isinstance(k, int) else VStr(k) for k in v.d])
+        if isinstance(v, (VMap, VAbsList)):
+            return VAbsList('list')          # keys of a symbolic dict (message text): contents are not tracked
         raise OutOfSubset('%s(%r)' % (name, v))
     if name == 'int':
         v = args[0]
